@@ -16,9 +16,9 @@ import (
 
 func init() {
 	core.Register(&core.Check{
-		ID:     "C25",
-		Rule:   "cases: every 1-byte and 2-byte string (every 3-byte string in thorough) plus PRNG strings biased to invalid UTF-8, C0/C1 controls, U+FFFD, astral runes, quotes, backslashes and escape look-alikes, each written as a text string literal through the internal text encoder and through prototext.Marshal of a non-validated (proto2) string field and a bytes field, with and without EmitASCII, single- and multi-line, then parsed back; plus PRNG well-formed unknown-field sets (nested groups, length-delimited values that do or do not parse as messages) rendered with EmitUnknown by Marshal and Format on generated and dynamic messages; distinct = distinct (byte string) or (unknown set); non-trivial = non-empty",
-		Assume: []string{"bytes.Equal; printable ASCII = 0x20..0x7e"},
+		ID:         "C25",
+		Rule:       "cases: every 1-byte and 2-byte string (every 3-byte string in thorough) plus PRNG strings biased to invalid UTF-8, C0/C1 controls, U+FFFD, astral runes, quotes, backslashes and escape look-alikes, each written as a text string literal through the internal text encoder and through prototext.Marshal of a non-validated (proto2) string field and a bytes field, with and without EmitASCII, single- and multi-line, then parsed back; plus PRNG well-formed unknown-field sets (nested groups, length-delimited values that do or do not parse as messages) rendered with EmitUnknown by Marshal and Format on generated and dynamic messages; distinct = distinct (byte string) or (unknown set); non-trivial = non-empty",
+		Assume:     []string{"bytes.Equal; printable ASCII = 0x20..0x7e"},
 		Exhaustive: func(tier string) bool { return false },
 		Batches: func(tier string) []core.Batch {
 			return stdBatches([]string{"base"}, 16)
